@@ -393,6 +393,26 @@ theorem reset_run_independent_of_history (hist : List RunCfg) (cfg : RunCfg) (hr
   have hp := runHistory_preserves draw stepFn valFn hist s0
   exact same_seed_same_run draw stepFn valFn cfg hreset _ _ k (hp.1.trans hseed) hseed hp.2
 
+/-- **Every entry point of a reset is the same operation**: `reconstruct(reset=True, …)` is
+`reset_recon()` followed by `reconstruct(reset=False, …)` (also what `from_ptychography` does on its
+clone) — so, after any history on a seeded object, the method route reproduces the fresh object's
+run as well. -/
+theorem reset_routes_agree (hist : List RunCfg) (cfg : RunCfg) (s0 : Recon P R) (k : Nat)
+    (hseed : s0.rng.rngSeed = some k) :
+    reconstruct draw stepFn valFn { cfg with reset := true } s0
+        = reconstruct draw stepFn valFn { cfg with reset := false } (resetRecon s0) ∧
+      reconstruct draw stepFn valFn { cfg with reset := false }
+          (resetRecon (runHistory draw stepFn valFn hist s0))
+        = reconstruct draw stepFn valFn { cfg with reset := true } s0 := by
+  have h1 : ∀ s : Recon P R, reconstruct draw stepFn valFn { cfg with reset := true } s
+      = reconstruct draw stepFn valFn { cfg with reset := false } (resetRecon s) := by
+    intro s
+    unfold reconstruct
+    simp
+  refine ⟨h1 s0, ?_⟩
+  rw [← h1]
+  exact reset_run_independent_of_history draw stepFn valFn hist { cfg with reset := true } rfl s0 k hseed
+
 end Reconstruct
 
 /-- the hypotheses are satisfiable: a seeded state, a history with a continuation, a reset run -/
